@@ -103,8 +103,11 @@ def split(prop, tier, seed):
              dict(hours=60, freq='4h', interval='d', storage=True, orderbook=None, unit='d', wacc=0.3, pseed=12),
              # anchored interval size, horizon starting off the anchor (Wednesday, weeks start on Sunday) / on it
              dict(hours=240, freq='4h', interval='W', storage=False, orderbook=None, start='2021-01-06', pseed=13),
-             dict(hours=336, freq='4h', interval='W', storage=True, orderbook=None, start='2021-01-03', pseed=14)] + cases
-    b = run_cases(sc.check_split, cases[:_n(tier, 15, 19)], 'split vs unsplit on a two-node portfolio (optionally with a storage, grid in main time unit h or d with discounting, with an order book as first / last asset, one order per day, with a plant whose fuel efficiency differs from day to day); horizons aligned / one step over / several steps over the interval size; value, balance, step numbering, DCF accounting of the split problem',
+             dict(hours=336, freq='4h', interval='W', storage=True, orderbook=None, start='2021-01-03', pseed=14),
+             # zone-aware grids over a daylight-saving switch, split by local days of 23 / 25 hours
+             dict(hours=71, freq='h', interval='d', storage=False, orderbook=None, start='2021-03-27', tz='CET', pseed=15),
+             dict(hours=73, freq='h', interval='d', storage=True, orderbook=None, start='2021-10-30', tz='CET', pseed=16)] + cases
+    b = run_cases(sc.check_split, cases[:_n(tier, 17, 21)], 'split vs unsplit on a two-node portfolio (optionally with a storage, grid in main time unit h or d with discounting, with an order book as first / last asset, one order per day, with a plant whose fuel efficiency differs from day to day); horizons aligned / one step over / several steps over the interval size; value, balance, step numbering, DCF accounting of the split problem',
                   'horizons up to 72 h, interval d', 60 if tier == 'quick' else 300)
     b['failures'] = [f for f in b['failures'] if f['name'].startswith(prop) or f.get('error')]
     return dict(bounded=b)
@@ -182,11 +185,13 @@ def unit_commitment(prop, tier, seed):
                 for (tar, tao) in ((0, 1), (1, 0), (2, 0), (0, 2), (3, 0)):     # (the constructor refuses 0/0: exactly one of the two is positive)
                     cases.append(dict(T=T, mr=mr, md=md, tar=tar, tao=tao))
     rng.shuffle(cases)
-    return dict(bounded=run_cases(sc.check_uc, cases[:_n(tier, 6, 40)], 'Plant on an hourly grid: ALL 2^T on/off patterns pinned in the real assembled MIP, feasibility (SCIP) vs reference predicate (runtime, downtime, initial state)',
+    # remaining minimum runtime / downtime longer than the horizon
+    cases = [dict(T=4, mr=9, md=0, tar=2, tao=0), dict(T=4, mr=0, md=8, tar=0, tao=1)] + cases
+    return dict(bounded=run_cases(sc.check_uc, cases[:_n(tier, 7, 42)], 'Plant on an hourly grid: ALL 2^T on/off patterns pinned in the real assembled MIP, feasibility (SCIP) vs reference predicate (runtime, downtime, initial state)',
                                   'T in {4,5}, min runtime/downtime in {0,2,3}, 5 initial states (running 1-3 / off 1-2 steps); quick: seeded sample of 6 parameter sets x 2^T patterns', 80 if tier == 'quick' else 900))
 
 
-@provider('C16')
+@provider('C16', 'C07', 'C04')
 def scaled(prop, tier, seed):
     rng = random.Random(seed)
     cases = [dict(T=T, window=w, norm=S, scale=s, rate=r, base=rng.choice(['storage', 'must_take', 'load']), pseed=rng.randint(0, 999)) for T in (8,) for w in ((0, 8), (2, 6), (3, 8)) for S in (1., 4.)
@@ -196,9 +201,15 @@ def scaled(prop, tier, seed):
     cases = [dict(T=6, window=(0, 6), norm=1., scale=2., rate=.25, base='structured', pseed=5), dict(T=8, window=(2, 7), norm=4., scale=2., rate=0., base='structured', pseed=6),
              # base asset with a narrower window of its own than the scaled asset
              dict(T=8, window=(0, 8), base_window=(2, 6), norm=1., scale=2., rate=.25, base='must_take', pseed=7),
-             dict(T=8, window=(1, 8), base_window=(3, 7), norm=4., scale=.5, rate=.5, base='storage', pseed=8)] + cases
-    return dict(bounded=run_cases(sc.check_scaled, cases[:_n(tier, 14, 40)], 'ScaledAsset(Storage / must-take contract / fixed load / structured asset with an internal node) held at a fixed scale vs the base asset with capacities x s/S less s x rate x active duration; windows at / after the grid start',
-                                  'hourly grid of 8 steps', 50 if tier == 'quick' else 300))
+             dict(T=8, window=(1, 8), base_window=(3, 7), norm=4., scale=.5, rate=.5, base='storage', pseed=8),
+             # base asset with a variable that has no mapping row (order book whose last order lies after the horizon)
+             dict(T=6, window=(0, 6), norm=1., scale=2., rate=.25, base='orderbook', pseed=9), dict(T=8, window=(0, 8), norm=2., scale=1., rate=.5, base='orderbook', pseed=10)] + cases
+    if prop != 'C16':
+        cases = cases[:6] + cases[6:10]
+    b = run_cases(sc.check_scaled, cases[:_n(tier, 16, 42)], 'ScaledAsset(Storage / must-take contract / fixed load / structured asset with an internal node / order book with an order after the horizon) held at a fixed scale vs the base asset with capacities x s/S less s x rate x active duration; windows at / after the grid start',
+                                  'hourly grid of 8 steps', 50 if tier == 'quick' else 300)
+    b['failures'] = [f for f in b['failures'] if f['name'].startswith(prop) or f.get('error')]
+    return dict(bounded=b)
 
 
 def replay(body):
@@ -291,7 +302,11 @@ def stochastic(prop, tier, seed):
     for _ in range(_n(tier, 8, 40)):
         T = rng.randint(4, 8)
         cases.append(dict(T=T, k=rng.randint(1, T - 1), S=rng.randint(1, 3), transport=rng.random() < .5, internal=rng.random() < .5, identical=rng.random() < .25, seed=rng.randint(0, 99999)))
-    b1 = run_cases(sc.check_slp, cases, 'make_slp on storage portfolios (optionally with a multi-row transport and with a structured asset whose internal variables are not of dispatch type) with 1-3 sampled futures sharing the present prices: block structure, cost scaling, EEV <= V_slp <= mean of scenario optima, = deterministic optimum for identical scenarios',
+    for j in range(_n(tier, 3, 12)):
+        # unit commitment next to multi-row variables (the boolean flags of the extended problem must stay on the plant's variables)
+        T = rng.randint(4, 6)
+        cases.append(dict(T=T, k=rng.randint(1, T - 1), S=rng.randint(1, 2), transport=j % 3 != 2, plant=True, internal=False, identical=j % 2 == 0, seed=rng.randint(0, 99999)))
+    b1 = run_cases(sc.check_slp, cases, 'make_slp on storage portfolios (optionally with a multi-row transport, with a unit-commitment plant (booleans) and with a structured asset whose internal variables are not of dispatch type) with 1-3 sampled futures sharing the present prices: block structure, cost scaling, EEV <= V_slp <= mean of scenario optima, = deterministic optimum for identical scenarios',
                    'hourly grids of 4-8 steps, present/future boundary anywhere', 50 if tier == 'quick' else 300)
     b2 = run_cases(sc.check_robust, cases[:_n(tier, 6, 30)], 'robust target over the cost vectors of 2-4 scenarios: worst case of the robust solution vs single-scenario solutions and vs the smallest scenario optimum',
                    'same portfolios', 30 if tier == 'quick' else 200)
@@ -335,6 +350,27 @@ def storage_physics(prop, tier, seed):
                 # the family of known finding D30 (window end on a block boundary, start level != end level) is represented by D30_CASE only
                 case['end_level'] = case['start_level']
             cases.append(case)
+    # steps of different length (calendar months in unit 'd', local days over the DST switch in unit 'h'): rates and the maximum holding
+    # duration follow the elapsed time
+    nonuni = []
+    for rep in range(_n(tier, 5, 16)):
+        kind = 'MS' if rep % 2 == 0 else 'dst'
+        T = rng.randint(5, 8) if kind == 'MS' else rng.randint(4, 6)
+        nonuni.append(dict(T=T, seed=rng.randint(0, 9999), grid=kind, grid_start=rng.choice(['2021-02-01', '2021-01-01', '2021-06-01']) if kind == 'MS' else rng.choice(['2021-03-26', '2021-10-29']),
+                           size=200. if kind == 'MS' else 100., cap_in=rng.choice([1., 5.]), cap_out=rng.choice([1.5, 5.]), eff=rng.choice([1., .9]),
+                           max_dur=(rng.choice([59., 62., 84., 92.]) if kind == 'MS' else rng.choice([47., 48., 71., 72.])) if rep % 4 != 3 else None, start_level=0., end_level=0.,
+                           inflow=rng.choice([0., 0., .05]) if rep % 4 == 3 else 0., order=rng.random() < .5, price_trend=rep % 4 != 3 and rng.random() < .8, jump=rng.randint(2, T - 2)))
+    # boundary cases of the holding duration: exactly k steps from step i may be held (i, k over a short step followed by longer ones and
+    # the other way round)
+    hold = []
+    for j in range(_n(tier, 10, 40)):
+        kind = 'MS' if j % 3 != 2 else 'dst'
+        T = 8 if kind == 'MS' else 7
+        hold.append(dict(T=T, seed=j, grid=kind, grid_start=rng.choice(['2021-02-01', '2021-01-01', '2021-04-01']) if kind == 'MS' else rng.choice(['2021-03-27', '2021-10-30', '2021-03-28']),
+                         size=1000., cap_in=5., cap_out=5., eff=rng.choice([1., .9]), start_level=0., end_level=0., hold_from=rng.randint(0, 2),
+                         md_factor=rng.choice([2., 3., 2., 3., 2.05, 3.1, 1.5, 2.6])))      # mostly a whole number of steps of the first step's length
+    rng.shuffle(hold)
+    cases = cases[:1] + hold[:_n(tier, 10, 40)] + nonuni[:2] + cases[1:max(2, len(cases) - len(nonuni) - 10)] + nonuni[2:]
     return dict(bounded=run_cases(sc.check_storage_physics, cases, 'optimised storage portfolios (one/two nodes, efficiency, start/end level, inflow, charging cost, no-simultaneous option, maximum holding duration, time blocks of 2-3 h, windows, asset order): physical level within [0, size] and at the end level at the end of every block, rates within rate x step length, reported fill level = physical level, holding duration respected',
                                   'hourly grids of 4-8 steps', 60 if tier == 'quick' else 400))
 
@@ -350,6 +386,10 @@ def chp_ramp_profiles(prop, tier, seed):
         last = prof[tar - 1] if 0 < tar <= L else (rng.choice([4., 6.]) if tar > L else 0.)
         cases.append(dict(T=rng.randint(4, 7), seed=rng.randint(0, 9999), profile=prof, min_cap=4., max_cap=rng.choice([10., 20.]), ramp=rng.choice([2., 3.]), tar=tar, last=last,
                           order=rng.random() < .5, shutdown=rng.choice([None, None, [3., 2.]]), slack=rng.choice([0., 0., .5])))
+    # switched off at a given step (the last one, the one before, in the middle) with a shutdown profile, running long before the horizon
+    offs = [dict(T=T, seed=7, profile=[3.], min_cap=4., max_cap=10., ramp=10., tar=6, last=8., order=o, shutdown=sdp, slack=0., off_at=T - k)
+            for (T, k, sdp, o) in ((5, 1, [3., 2.], False), (6, 1, [1., 2., 3.], True), (6, 2, [3., 2.], False), (7, 3, [2.], True), (4, 1, [2.], False))]
+    cases = offs[:_n(tier, 3, 5)] + cases
     return dict(bounded=run_cases(sc.check_chp_ramp_profiles, cases, 'optimised Plant with a start ramp profile (1-3 steps, exact or with slack), optionally a shutdown profile, an ordinary ramp and a declared initial state (off / inside the profile / profile just completed / running longer): profile followed after every start, capacity band and ramp afterwards incl. the first step relative to the last dispatch, no output when off',
                                   'hourly grids of 4-7 steps', 60 if tier == 'quick' else 400))
 
@@ -401,7 +441,11 @@ def periodic_kinds(prop, tier, seed):
     cases = [dict(kind=k, duration=d, freq=f, days=days, first=rng.random() < .5, seed=rng.randint(0, 9999))
              for k in ('simple', 'spread', 'transport', 'multi') for d in (None, '2d') for (f, days) in (('6h', 4), ('4h', 5))]
     rng.shuffle(cases)
-    b = run_cases(sc.check_periodic_kinds, cases[:_n(tier, 12, 16)], 'periodic assets of four kinds (one / two variables per step, one / several mapping rows per variable) x with / without periodicity_duration 2d x grids 6h/4d, 4h/5d (partial last duration): well-formed problem stand-alone and in a portfolio; optimum = non-periodic portfolio + equalities (scipy/HiGHS); reported dispatch repeats',
+    # limits varying from step to step on one side / both sides (one and two variables per step)
+    vary = [dict(kind=k, duration=d, freq='6h', days=4, first=True, seed=rng.randint(0, 9999), vary=v) for (k, d, v) in
+            (('simple', None, 'min'), ('spread', '2d', 'max'), ('simple', '2d', 'both'), ('spread', None, 'min'), ('simple', None, 'max'))]
+    cases = vary[:_n(tier, 3, 5)] + cases
+    b = run_cases(sc.check_periodic_kinds, cases[:_n(tier, 14, 21)], 'periodic assets of four kinds (one / two variables per step, one / several mapping rows per variable) x with / without periodicity_duration 2d x grids 6h/4d, 4h/5d (partial last duration): well-formed problem stand-alone and in a portfolio; optimum = non-periodic portfolio + equalities (scipy/HiGHS); reported dispatch repeats',
                   'grids of 16-30 steps', 50 if tier == 'quick' else 200)
     b['failures'] = [f for f in b['failures'] if f['name'].startswith(prop) or f.get('error')]
     return dict(bounded=b)
@@ -429,7 +473,10 @@ def optimize_random(prop, tier, seed):
     for c in cases:
         if not c['all_fixed'] and rng.random() < .3:
             c['inf'] = True
-    return dict(bounded=run_cases(sc.check_optimize_random, cases, 'random small problems handed to OptimProblem.optimize (1-5 variables, 0-4 rows of random types U/L/S/N, duplicated / shuffled mapping rows, boolean flags on variables with bounds other than 0/1, all variables fixed, one-sided variables with an infinite bound): feasibility, row satisfaction by type, boolean flags, value = -c.x, optimality and failure <=> infeasible against scipy milp',
+    # problems in which integrality matters (unit boxes, fractional knapsack rows), mapping rows shuffled or variables without any row
+    focus = [dict(seed=rng.randint(0, 999999), mip=True, all_fixed=False, frac=True, shuffle=j % 2 == 0, unmapped=j % 3 != 0) for j in range(_n(tier, 40, 200))]
+    cases = focus[:len(focus) // 2] + cases + focus[len(focus) // 2:]
+    return dict(bounded=run_cases(sc.check_optimize_random, cases, 'random small problems handed to OptimProblem.optimize (1-5 variables, 0-4 rows of random types U/L/S/N, duplicated / shuffled mapping rows, variables without a mapping row, knapsack rows with fractional right-hand sides over unit boxes, boolean flags on variables with bounds other than 0/1, all variables fixed, one-sided variables with an infinite bound): feasibility, row satisfaction by type, boolean flags, value = -c.x, optimality and failure <=> infeasible against scipy milp',
                                   '<= 5 variables, <= 4 rows', 60 if tier == 'quick' else 400))
 
 
